@@ -61,6 +61,35 @@ theorem C03_fixed_tree (t : Term) :
     run Cfg.fixed t = { log := [denote t []], aborted := false, uaf := false } :=
   C03_exec_denotes Cfg.fixed rfl t
 
+/-- **The pinned (pre-fix) tree, partial.**  `Cfg.pinned` is the tree as pinned: `split` and
+    `split_tuple` do not store a stopped completion.  For every pipeline that cannot complete
+    with stopped anywhere (`stoppedFree`: no `stop` leaf, no scheduler completing with stopped;
+    errors, throwing callables and every adaptor are allowed) the pinned tree satisfies the full
+    statement: exactly one call of the terminal receiver, with the denoted signal, no abort, no
+    touch after release.  (The full theorem is false for the pinned tree:
+    `C03_split_stopped_counterexample`.) -/
+theorem C03_exec_denotes_partial (t : Term) (h : stoppedFree t = true) :
+    run Cfg.pinned t = { log := [denote t []], aborted := false, uaf := false } := by
+  obtain ⟨s', e, x⟩ := specG Cfg.pinned rfl t (Or.inr h) [] termR M.init rfl rfl
+  simp only [run, e, termR, M.outcome, x.log, x.uaf, x.aborted]
+  rfl
+
+/-- The receiver contract in the same generality: any code variant, any term it handles. -/
+theorem C03_receiver_contract_partial (cfg : Cfg) (hw : cfg.wvSendsDone = true) (t : Term)
+    (hg : cfg.ok = true ∨ stoppedFree t = true) (env : List Int) (k : Rc)
+    (s : M) (ha : s.aborted = false) (hr : s.released = false) :
+    ∃ s', start cfg t env k s = k (denote t env) s' ∧ s'.log = s.log ∧ s'.uaf = s.uaf ∧
+      s'.aborted = false ∧ s'.released = false ∧ ∀ a, a < s.next → s'.cells a = s.cells a := by
+  obtain ⟨s', e, x⟩ := specG cfg hw t hg env k s ha hr
+  exact ⟨s', e, x.log, x.uaf, x.aborted, x.released, fun a h => x.cells a h (by omega)⟩
+
+/-- a stopped-free pipeline never signals stopped -/
+theorem C03_stopped_free (t : Term) (h : stoppedFree t = true) (env : List Int) :
+    denote t env ≠ .stopped := denote_ns t h env
+
+example : run Cfg.pinned (.sp (.dos (.bulk 2 (.thrOdd 5) (.co .p (.just [1, 2]))))) =
+    { log := [.error 5], aborted := false, uaf := false } := by decide
+
 /-! ### What the denotation says (the clauses of the property, as equations) -/
 
 /-- values pass `then` through the callable; an exception becomes an error with the same code -/
